@@ -908,7 +908,10 @@ func raceWitness(bi *buildInfo, pc *propCfg, rf *replayFile) (*replayFile, int) 
 	if locs[0] == locs[1] {
 		cands = cands[:1]
 	}
-	for nth := 1; nth <= 4; nth++ {
+	// which arrival at the park statement is the one inside the racing pair of operations depends
+	// on how many unrelated operations pass through it first: try the first few and then a thinning
+	// series (each try is one fresh process)
+	for _, nth := range []int{1, 2, 3, 4, 6, 8, 12, 16, 24, 32, 48, 64, 96, 128} {
 		for _, c := range cands {
 			if strings.HasPrefix(c.park, "verifsim/") {
 				continue // harness code has no yield sites to park at
